@@ -74,3 +74,13 @@ claimed["C17"] = (
  "Decides: the three read-path roots and all module code they reach write nothing reachable from the shared handle and no global/unknown memory; every exported FileBuffer method takes its mutex first with a deferred unlock and unexported ones are reached only from those; errgroup bodies write only captured variables no sibling touches, loop bodies write only elements indexed by a per-iteration copy of the loop variable (no shared append/map/variable), the parent reads results only after Wait; handlers write neither the shared *app nor globals; package variables are stored only at initialisation. Necessary (and, under the trusted base, sufficient for data-race freedom of these paths) structural conditions of C17.",
  "Not decided: equality of concurrent and sequential results as such; races inside the standard library or bitset (trusted); command-level goroutines other than errgroup.Go bodies.",
  "DESIGN.md 5 (C17)")
+claimed["C14"] = (
+ "static cursor analysis of the codec (E-codec): linear byte offsets and guard-established length guarantees over SSA, encoder/decoder layout comparison",
+ "Decides for all eight AppendTo/TakeFrom pairs: decoder layout = encoder layout (offset, width, big-endian, field, nested type, counted loop); floats cross via Float{32,64}bits/frombits only; every read and nested fixed-size decode is covered by a dominating length guard of the same decoder; every WantLargerBufferError carries consumed+needed of the failed guard; every success return hands back the input advanced by exactly what its path decoded, and the encoder produces what the decoder consumes; archiveCount is always len(archiveInfoList); readHeader retries exactly once. Necessary structural conditions of C14 (for well-formed series: len(values) = (until-from)/step).",
+ "Not decided: behaviour for hostile counts (C15), equality of decoded objects as values (follows from the layout symmetry for the fields covered).",
+ "DESIGN.md 5 (C14)")
+claimed["C06"] = (
+ "static cursor analysis of the encoders compared with the Whisper format table, constant evaluation, recurrence and derives-from checks on SSA expressions",
+ "Decides: size constants; encoder layouts equal the classic Whisper table (offset, width, byte order, field role) and decoders mirror them; offsets follow the contiguous recurrence in fillOffset and validate; file length = header + 12 x points and Create truncates to it; maxRetention = last archive's retention; slot address = offset + index*12 with index = floorMod((interval-base)/step, points), base from the archive's first 4 bytes, first point of an empty archive at slot 0, every aligned point written unconditionally; alignment in 64-bit floored arithmetic. Necessary structural conditions of C06.",
+ "Not decided: that go-whisper reads the same series for every history (behavioural cross-reading); go-whisper itself is not analysed.",
+ "DESIGN.md 5 (C06)")
